@@ -1,6 +1,8 @@
 (* C38 — pure-Python mode: Shadow.cdiv / Shadow.cmod are C truncating division / remainder. *)
-From Coq Require Import ZArith Bool.
+From Coq Require Import ZArith Bool List.
 From CyVerif Require Import Lib.CInt Model.M_Shadow Model.M_CMath Proof.P_Shadow Proof.P_CMath.
+From CyVerif Require Import Model.M_ShadowCast Proof.P_ShadowCast.
+Import ListNotations.
 Open Scope Z_scope.
 
 Theorem C38_cdiv_is_trunc : forall a b, b <> 0 -> sh_cdiv a b = Z.quot a b.
@@ -25,3 +27,65 @@ Print Assumptions C38_interpreted_eq_compiled.
 
 Example C38_nonvacuous : sh_cdiv (-7) 2 = -3 /\ sh_cmod (-7) 2 = -1 /\ sh_cdiv 7 (-2) = -3 /\ sh_cmod 7 (-2) = 1.
 Proof. vm_compute. intuition congruence. Qed.
+
+(* ---- cast() / declare() / typedef types (Model/M_ShadowCast.v) ---- *)
+
+(* any depth of typedef / const / volatile / restrict layers is transparent to cast() *)
+Theorem C38_cast_typedef_transparent : forall n t args, cast (wrapn n t) args = cast t args.
+Proof. exact cast_wrapn. Qed.
+Print Assumptions C38_cast_typedef_transparent.
+
+(* cast to any C integer typedef of an integer within the declared range is the C value (no wrap) *)
+Theorem C38_cast_int_in_range : forall t w s z, base t = Some KInt -> 1 <= w -> in_range w s z ->
+  cast t [VInt z] = RVal (VInt (wrap w s z)).
+Proof. exact cast_int_in_range. Qed.
+Print Assumptions C38_cast_int_in_range.
+
+(* cast to a C integer typedef of a finite float (-1)^s * m * 2^e = C's double -> integer conversion *)
+Theorem C38_cast_float_to_int_trunc : forall t s m e, base t = Some KInt -> 0 <= m ->
+  cast t [VFloat s m e] = RVal (VInt (c_trunc s m e)).
+Proof. exact cast_float_to_int. Qed.
+Print Assumptions C38_cast_float_to_int_trunc.
+
+(* ... which rounds toward zero *)
+Theorem C38_trunc_toward_zero : forall s m e, 0 <= m ->
+  (e < 0 -> Z.abs (c_trunc s m e) = m / 2 ^ (- e)) /\
+  (s = true -> c_trunc s m e <= 0) /\ (s = false -> 0 <= c_trunc s m e).
+Proof. intros s m e Hm. split; [intros He; apply c_trunc_abs; assumption | apply c_trunc_sign; assumption]. Qed.
+Print Assumptions C38_trunc_toward_zero.
+
+(* cast of an integer to a C floating typedef: exact below 2^53, correctly rounded
+   (within half a unit in the last place of a 53-bit significand) in general *)
+Theorem C38_cast_int_to_float_exact : forall t z, base t = Some KFloat -> Z.abs z < 2 ^ 53 ->
+  cast t [VInt z] = RVal (VFloat (z <? 0) (Z.abs z) 0).
+Proof. exact cast_int_to_float_exact. Qed.
+Print Assumptions C38_cast_int_to_float_exact.
+
+Theorem C38_cast_int_to_float_rounded : forall t z s m e, base t = Some KFloat ->
+  cast t [VInt z] = RVal (VFloat s m e) ->
+  s = (z <? 0) /\ 0 <= e /\ 0 <= m <= 2 ^ 53 /\ 2 * Z.abs (Z.abs z - m * 2 ^ e) <= 2 ^ e.
+Proof.
+  intros t z s m e H. rewrite (cast_base _ _ _ H). cbn [cast is_none isinstance orb construct].
+  apply round_half_ulp.
+Qed.
+Print Assumptions C38_cast_int_to_float_rounded.
+
+(* values that already have the target class, and None, pass through unchanged *)
+Theorem C38_cast_passthrough : forall t c v, base t = Some c ->
+  (isinstance v c = true -> cast t [v] = RVal v) /\ cast t [VNone] = RVal VNone.
+Proof. intros t c v H. split; [apply cast_same_class; assumption | apply (cast_none t c H)]. Qed.
+Print Assumptions C38_cast_passthrough.
+
+(* declare(t, v) is cast(t, v); declare(t) of a non-struct type is None *)
+Theorem C38_declare : forall t v, declare t (Some v) = cast t [v] /\ declare t None = RVal VNone.
+Proof. intros. split; reflexivity. Qed.
+Print Assumptions C38_declare.
+
+Example C38_cast_nonvacuous :
+  cast (wrapn 3 (TClass KInt)) [VFloat true 15 (-1)] = RVal (VInt (-7)) /\
+  cast (wrapn 2 (TClass KFloat)) [VInt (2 ^ 53 + 1)] = RVal (VFloat false (2 ^ 52) 1) /\
+  cast (wrapn 2 (TClass KFloat)) [VInt (- (2 ^ 53 + 3))] = RVal (VFloat true (2 ^ 52 + 2) 1) /\
+  cast (TClass KInt) [VInf false] = RErr OverflowError /\
+  cast TNon [VInt 3; VInt 4] = RVal (VInt 3) /\
+  cast (TClass KInt) [VNone; VInt 37] = RErr ValueError.
+Proof. vm_compute. repeat split. Qed.
